@@ -20,6 +20,7 @@ Program order of `HAProxyUpdate` (every `return` runs the deferred `config.Commi
     5 dynUpdater.update                     runtime commands on the admin socket (Send k = 0,1,..);
                                             `if rewrite { updated = false }`
     6 writeConfig                           gate `!updated || cmdCnt > 0 || Backends().Changed()`:
+                                            (modsec, errorfiles, responses.lua: layer `RW` below,)
                                             haproxy.cfg, then ChangedShards() ascending
       rewriteOwed = false                   only an update that gets here clears it
       if updated && reloadOwed { updated = false }
@@ -236,6 +237,10 @@ structure Res (p : Nat) where
   w : FW p
   err : Bool := false
   sends : Nat := 0
+  -- what the update did, for the layer of the response files (see `updR`):
+  reached : Bool := false        -- `writeConfig` was called (the gate of stage 6 was open)
+  wroteMain : Bool := false      -- `writeConfig` got as far as haproxy.cfg and wrote it
+  reloaded : Bool := false       -- HAProxy was reloaded and read the files
 
 /-- the deferred `config.Commit()`: backends, hosts, tcp services, `globalOld` -/
 def commitAll (w : FW p) (s : Store p) (hs : HStore p) : FW p :=
@@ -359,7 +364,8 @@ def post (o : Opt) (sh : Sh p) (f : Fault) (m : Mid p) : Res p :=
   -- 6
   let doWrite := !m.updated || decide (0 < m.sends) || m.bchg
   let mainBad := decide (sh.n = 0) && anyFin (badX o m.s m.w.pmI)
-  if doWrite && (f == .mainCfg || mainBad) then { w := commitAll m.w m.s m.hs, err := true, sends := m.sends } else
+  if doWrite && (f == .mainCfg || mainBad) then
+    { w := commitAll m.w m.s m.hs, err := true, sends := m.sends, reached := true } else
   let lim := shardLim o sh f m.s m.w.pmI
   let w6 : FW p := if doWrite then
       { setDisk m.w (writeCfg sh m.s m.w.g.w.disk lim) with
@@ -367,16 +373,18 @@ def post (o : Opt) (sh : Sh p) (f : Fault) (m : Mid p) : Res p :=
         mainHosts := anyFin fun x => (m.hs.maps x).isSome      -- rendered from the `frontend.Maps` object
         pcI := fun x => rendered sh m.s lim x || m.w.pcI x }
     else m.w
-  if doWrite && lim.isSome then { w := commitAll w6 m.s m.hs, err := true, sends := m.sends } else
+  if doWrite && lim.isSome then
+    { w := commitAll w6 m.s m.hs, err := true, sends := m.sends, reached := true, wroteMain := true } else
   -- past writeConfig: `i.rewriteOwed = false`; `if updated && i.reloadOwed { updated = false }`
   let w6 : FW p := { w6 with rewriteOwed := false }
   let updated := m.updated && !(o.repaired && m.w.reloadOwed)
   -- 7
-  if updated then { w := commitAll w6 m.s m.hs, sends := m.sends } else
+  if updated then { w := commitAll w6 m.s m.hs, sends := m.sends, reached := doWrite, wroteMain := doWrite } else
   -- 8
-  if o.queue then { w := commitAll { w6 with pending := true } m.s m.hs, sends := m.sends } else
+  if o.queue then
+    { w := commitAll { w6 with pending := true } m.s m.hs, sends := m.sends, reached := doWrite, wroteMain := doWrite } else
   let r := reload sh f w6
-  { w := commitAll r.1 m.s m.hs, err := r.2, sends := m.sends }
+  { w := commitAll r.1 m.s m.hs, err := r.2, sends := m.sends, reached := doWrite, wroteMain := doWrite, reloaded := !r.2 }
 
 /-- one `HAProxyUpdate` with fault `f` -/
 def upd (o : Opt) (sh : Sh p) (f : Fault) (w : FW p) : Res p :=
@@ -388,7 +396,7 @@ def upd (o : Opt) (sh : Sh p) (f : Fault) (w : FW p) : Res p :=
 def qrun (sh : Sh p) (f : Fault) (w : FW p) : Res p :=
   if !w.pending then { w := w } else
   let r := reload sh f w
-  { w := { r.1 with pending := r.2 }, err := r.2 }
+  { w := { r.1 with pending := r.2 }, err := r.2, reloaded := !r.2 }
 
 /-! ### histories -/
 
@@ -458,6 +466,169 @@ def RunGood (sh : Sh p) (w : FW p) : Prop :=
   (∀ x, w.run.maps x = (load sh w).maps x) ∧
   (∀ x, w.run.bm x = (load sh w).bm x) ∧
   w.run.tcpMap = w.tcp.map ∧ w.run.tcpCrt = w.tcp.crt ∧ w.run.tcpMain = w.tcp.main
+
+/-! ### the custom HTTP response files
+
+`writeConfig` (stage 6) writes, in this order: spoe-modsecurity.conf (content fixed here, not modelled),
+one `errorfiles/<code>.http` per entry of `Global.CustomHTTPHAResponses`, `lua/responses.lua` from
+`Global.CustomHTTPLuaResponses`, haproxy.cfg (which names every errorfile: `errorfile <code> <file>`, and
+`lua-load`s responses.lua), the changed shard files.  Each failed write returns at once.  The response
+files have no guard of their own: every update that calls `writeConfig` renders them again from the
+global config.  The global config is replaced by `config.Clear()` and filled by the converter inside a
+full resync only; the deferred `Commit()` copies it into `globalOld` on every return path
+(`hasCommittedData() = globalOld != nil` is `GWorld.committed`).  `Clear()` keeps the global of the last
+commit in `globalPrev` (until the next `Commit()`); `config.Shrink()` calls `ForceRewrite()` when the new
+global differs from it, because the shard files and the maps render globals too (`forced`).
+
+This layer sits on top of `FW`: for the part of the state that `FW` holds, a response file that cannot be
+written is the return path of a haproxy.cfg that cannot be written (`return err` of `writeConfig` before
+anything of haproxy.cfg is rendered), so `updR` runs `upd` with that fault and replays the response
+files from what `upd` reports (`Res.reached`, `Res.wroteMain`, `Res.reloaded`).
+
+Abstraction: `Glob.lua` = content of the Lua based responses (`http-response-404`), `Glob.ha` = content of
+the one HAProxy based response (`http-response-503`), 0 = not configured: no errorfile, no `errorfile`
+line.  A file that was written once stays (nothing deletes an errorfile).
+
+`ROpt.gated = true` is NOT the code that exists: it is the variant "write the response files only when
+`globalOld == nil || global != globalOld`", kept for the witnesses of Props/C12 (such a gate looks at
+what `Commit()` already overwrote on the failing path). -/
+
+structure Glob where
+  lua : Nat := 0
+  ha : Nat := 0
+deriving DecidableEq, Repr
+
+/-- the response files, and what haproxy.cfg says about them -/
+structure RFiles where
+  ha : Option Nat := none          -- errorfiles/503.http
+  lua : Option Nat := none         -- lua/responses.lua
+  main : Option Bool := none       -- haproxy.cfg exists; it has the `errorfile 503` line
+deriving DecidableEq, Repr
+
+/-- what HAProxy reads: an errorfile only when haproxy.cfg names it -/
+def loadR (d : RFiles) : RFiles := { d with ha := if d.main = some true then d.ha else none }
+
+/-- HAProxy refuses a configuration that names a file that does not exist -/
+def loadable (d : RFiles) : Bool :=
+  match d.main with
+  | none => true
+  | some b => d.lua.isSome && (!b || d.ha.isSome)
+
+inductive RFault where
+  | base (f : Fault)
+  | haResp                     -- 6  errorfiles/503.http cannot be written
+  | luaResp                    -- 6  lua/responses.lua cannot be written
+deriving DecidableEq, Repr
+
+structure ROpt where
+  o : Opt := {}
+  gated : Bool := false        -- the variant with `if GlobalChanged()` around the response files (witnesses only)
+
+structure RW (p : Nat) where
+  fw : FW p := {}
+  glob : Glob := {}            -- `config.global` (custom responses)
+  globOld : Glob := {}         -- `config.globalOld`, meaningful while `fw.g.committed`
+  globPrev : Option Glob := none   -- `config.globalPrev`: the global of the last commit, kept over `Clear()`
+  disk : RFiles := {}
+  run : RFiles := {}           -- what the running HAProxy read
+
+structure RRes (p : Nat) where
+  w : RW p
+  err : Bool := false
+
+/-- `config.Shrink()` finds a global that differs from the one of the last commit and calls
+`ForceRewrite()`.  `globalPrev` is only set between a `Clear()` and the next `Commit()`: no data is
+committed then. -/
+def forced (w : RW p) : Bool :=
+  !w.fw.g.committed && (match w.globPrev with | some g => g != w.glob | none => false)
+
+/-- the lower layer as the update sees it.  `ForceRewrite()` out of `Shrink()` is the `ForceRewrite()` of a
+rewrite that is owed; `if rewrite { updated = false }` is the only difference and makes none, without
+committed data the dynamic updater never answers `updated`. -/
+def fwOf (w : RW p) : FW p := if forced w then { w.fw with rewriteOwed := true } else w.fw
+
+/-- `GlobalChanged()` of the gated variant; the code that exists has no such gate -/
+def respGate (ro : ROpt) (w : RW p) : Bool := !ro.gated || !w.fw.g.committed || w.globOld != w.glob
+
+/-- the fault as `upd` sees it -/
+def baseFault (f : RFault) (g : Glob) (gate : Bool) : Fault :=
+  match f with
+  | .base f => f
+  | .haResp => if gate && g.ha != 0 then .mainCfg else .none
+  | .luaResp => if gate then .mainCfg else .none
+
+/-- the two loops of `writeConfig` over the response files, up to the first file that cannot be written -/
+def writeResp (f : RFault) (g : Glob) (d : RFiles) : RFiles :=
+  if f == .haResp && g.ha != 0 then d else
+  let d1 : RFiles := if g.ha != 0 then { d with ha := some g.ha } else d
+  if f == .luaResp then d1 else { d1 with lua := some g.lua }
+
+/-- the response files after an update that reported `r` -/
+def respDisk (f : RFault) (g : Glob) (gate : Bool) (r : Res p) (d : RFiles) : RFiles :=
+  let d1 := if r.reached && gate then writeResp f g d else d
+  if r.wroteMain then { d1 with main := some (g.ha != 0) } else d1
+
+/-- one `HAProxyUpdate` -/
+def updR (ro : ROpt) (sh : Sh p) (f : RFault) (w : RW p) : RRes p :=
+  let gate := respGate ro w
+  let r := upd ro.o sh (baseFault f w.glob gate) (fwOf w)
+  let d := respDisk f w.glob gate r w.disk
+  -- the deferred `Commit()`: `globalOld = global`, `globalPrev = nil`
+  if ro.gated && r.reloaded && !loadable d then
+    -- (gated variant only) the new worker does not start: the reload fails
+    let r' := upd ro.o sh .reloadResult (fwOf w)
+    { w := { fw := r'.w, glob := w.glob, globOld := w.glob, globPrev := none, disk := d, run := w.run }, err := r'.err }
+  else
+    { w := { fw := r.w, glob := w.glob, globOld := w.glob, globPrev := none, disk := d
+             run := if r.reloaded then loadR d else w.run }
+      err := r.err }
+
+/-- one run of the reload queue worker -/
+def qrunR (ro : ROpt) (sh : Sh p) (f : Fault) (w : RW p) : RRes p :=
+  let r := qrun sh f w.fw
+  if ro.gated && r.reloaded && !loadable w.disk then
+    let r' := qrun sh .reloadResult w.fw
+    { w := { w with fw := r'.w }, err := r'.err }
+  else
+    { w := { w with fw := r.w, run := if r.reloaded then loadR w.disk else w.run }, err := r.err }
+
+inductive REv (p : Nat) where
+  | ev (e : Ev p)              -- an event of the lower layer; `.upd f` / `.qrun f` carry a fault of theirs
+  | glob (g : Glob)            -- the converter fills `config.Global()`: custom responses
+  | updHa                      -- HAProxyUpdate, the errorfile cannot be written
+  | updLua                     -- HAProxyUpdate, responses.lua cannot be written
+
+def stepR (ro : ROpt) (sh : Sh p) (w : RW p) : REv p → RW p
+  | .ev (.upd f) => (updR ro sh (.base f) w).w
+  | .ev (.qrun f) => (qrunR ro sh f w).w
+  | .ev .full =>                                                             -- `createConfig`: a new Global
+    { w with fw := step ro.o sh w.fw .full, glob := {}
+             globPrev := if w.fw.g.committed then some w.globOld else w.globPrev }
+  | .ev e => { w with fw := step ro.o sh w.fw e }
+  | .glob g => { w with glob := g }
+  | .updHa => (updR ro sh .haResp w).w
+  | .updLua => (updR ro sh .luaResp w).w
+
+def runR (ro : ROpt) (sh : Sh p) (w : RW p) (evs : List (REv p)) : RW p := evs.foldl (stepR ro sh) w
+
+/-- caller discipline: the one of the lower layer, and the global config is only filled inside a full
+resync (after `config.Clear()`, before the update) -/
+def okEvR (w : RW p) : REv p → Bool
+  | .ev e => okEv w.fw e
+  | .glob _ => !w.fw.g.committed
+  | _ => true
+
+def allOkR (ro : ROpt) (sh : Sh p) : RW p → List (REv p) → Bool
+  | _, [] => true
+  | w, e :: es => okEvR w e && allOkR ro sh (stepR ro sh w e) es
+
+/-- Spec: the response files hold the rendering of the global config, haproxy.cfg names the errorfile iff
+one is configured -/
+def RespGood (w : RW p) : Prop :=
+  w.disk.lua = some w.glob.lua ∧ (w.glob.ha ≠ 0 → w.disk.ha = some w.glob.ha) ∧ w.disk.main = some (w.glob.ha != 0)
+
+/-- Spec: HAProxy read them -/
+def RespRunGood (w : RW p) : Prop := w.run = loadR w.disk
 
 /-! ### the same cycle over opaque files (world runner)
 
